@@ -32,7 +32,8 @@ STUBS = common.STUBS_ALL
 INTERLEAVING_MEASURE = 'distinct (history length, horizon, notation class) tuples'
 PROBES = ['horizon_gt_3', 'sibling_horizons_differ', 'explicit_units', 'no_future_operator', 'past_above_future', 'next_used']
 ENVELOPE_RULES = ['memory-past-above-delayed: a memoryful past operator (rise fall prev s_prev once historically since, bounded or '
-                  'not) above a sub-formula with horizon > 0 (known finding F08)']
+                  'not) above a sub-formula with horizon > 0 (known finding F08)',
+                  'partial-function-over-delayed: log(x, base) whose operands have different horizons (known finding F08b)']
 
 
 def _memory_above_future(ast):
@@ -44,10 +45,7 @@ def _memory_above_future(ast):
 
 
 def envelope(sc):
-    out = []
-    if _memory_above_future(sc['ast']):
-        out.append('memory-past-above-delayed')
-    return out
+    return common.warmup_visible(sc['ast'])
 
 
 def gen(rng, tier):
